@@ -11,8 +11,15 @@
 //!
 //! Oracle (the property text as predicates on the real results, against an independent reference
 //! that places every single bit by the documented layout, `ref_bit`):
-//!   Lean statements mirrored: `load_store_same`, `load_store_other`, `store_touches_only`,
-//!   `store_oob`, `load_oob`, `layout_bit`, `iter_toList`, `iter_nth`, `size_hint_exact`.
+//!   Lean statements mirrored (EG/Props/C11.lean): `load_store_same`, `load_store_other`,
+//!   `store_touches_only`, `store_touches_only_bits`, `store_oob`, `load_oob`, `layout_subbyte`,
+//!   `layout_u8`, `layout_multibyte`, `iter_toList`, `iter_next`, `iter_nth`, `size_hint_exact`,
+//!   `size_hint_brackets`.
+//!
+//! Not generated on purpose: indices above `usize::MAX / 4`. There `index * 2/3/4` in the
+//! multi-byte `load`/`store` overflows `usize` (checked build: panic "attempt to multiply with
+//! overflow", e.g. `raw.load 16 0 1,2 9223372036854775808`; the model, with `Nat` indices, says
+//! `none`). That is an arithmetic-range observation for C08, not part of C11's scope.
 use crate::common::*;
 use embedded_graphics::{iterator::raw::RawDataSlice, pixelcolor::raw::*};
 
@@ -89,7 +96,7 @@ where
 // ---------------------------------------------------------------------------------------------
 
 /// number of whole pixels in `len` bytes
-fn pixel_count(bits: u32, len: usize) -> usize {
+pub(crate) fn pixel_count(bits: u32, len: usize) -> usize {
     len * 8 / bits as usize
 }
 
@@ -97,7 +104,7 @@ fn pixel_count(bits: u32, len: usize) -> usize {
 /// LittleEndianMsb0: multi-byte pixels least significant byte first; sub-byte pixels packed from
 /// the most significant bits of each byte downwards. BigEndianLsb0: most significant byte first;
 /// sub-byte pixels packed from the least significant bits upwards.
-fn ref_bit(bits: u32, order: u32, i: usize, k: u32) -> (usize, u32) {
+pub(crate) fn ref_bit(bits: u32, order: u32, i: usize, k: u32) -> (usize, u32) {
     if bits < 8 {
         let ppb = (8 / bits) as usize;
         let slot = (i % ppb) as u32;
@@ -111,11 +118,11 @@ fn ref_bit(bits: u32, order: u32, i: usize, k: u32) -> (usize, u32) {
     }
 }
 
-fn ref_fits(bits: u32, len: usize, i: usize) -> bool {
+pub(crate) fn ref_fits(bits: u32, len: usize, i: usize) -> bool {
     (i as u128 + 1) * bits as u128 <= 8 * len as u128
 }
 
-fn ref_load(bits: u32, order: u32, buf: &[u8], i: usize) -> Option<u32> {
+pub(crate) fn ref_load(bits: u32, order: u32, buf: &[u8], i: usize) -> Option<u32> {
     if !ref_fits(bits, buf.len(), i) {
         return None;
     }
@@ -127,7 +134,7 @@ fn ref_load(bits: u32, order: u32, buf: &[u8], i: usize) -> Option<u32> {
     Some(v)
 }
 
-fn mask(bits: u32) -> u32 {
+pub(crate) fn mask(bits: u32) -> u32 {
     if bits == 32 {
         u32::MAX
     } else {
